@@ -145,6 +145,32 @@ def probe_single_mode(D, N, k, a, phase):
     return {"ok": err <= 1e-9 * abs(a) * N ** D + 1e-12, "err": err, "max_coef": float(np.max(np.abs(coef)))}
 
 
+def probe_coef_extraction(D, N, k, a):
+    """documented reading of the scaling arrays on a tensor-product cosine a·Π_d cos(2π k_d x_d / L): the stored entries
+    with wavenumbers (±k_0, …, ±k_{D-2}, k_last) hold a·N^D / 2^(#axes with k_d ∉ {0, Nyquist}); `coef_extraction` reads
+    `a` at each of them, `reconstruction` a / 2^(#such leading axes), `norm_compensation` a / 2^(#such axes)"""
+    import jax.numpy as jnp
+    import exponax as ex
+    sp = _sp()
+    L = 2.5
+    grid = np.asarray(ex.make_grid(D, L, N))
+    u = a * np.ones((N,) * D)
+    for d in range(D):
+        u = u * np.cos(2 * np.pi / L * abs(k[d]) * grid[d])
+    wn = np.asarray(sp.build_wavenumbers(D, N)).astype(int)
+    half = [0 if (kk == 0 or (N % 2 == 0 and abs(kk) == N // 2)) else 1 for kk in k]
+    match = np.ones(wn.shape[1:], dtype=bool)
+    for d in range(D):
+        match &= ((np.abs(wn[d]) - abs(k[d])) % N == 0) | ((np.abs(wn[d]) + abs(k[d])) % N == 0)
+    bad = {}
+    for mode, want in (("coef_extraction", a), ("reconstruction", a / 2 ** sum(half[:-1])), ("norm_compensation", a / 2 ** sum(half))):
+        coef = np.asarray(sp.get_fourier_coefficients(jnp.asarray(u)[None], scaling_compensation_mode=mode, round=None))[0]
+        got = coef[match]
+        if got.size == 0 or np.max(np.abs(got - want)) > 1e-9 * abs(a) or np.max(np.abs(coef[~match])) > 1e-9 * abs(a):
+            bad[mode] = {"want": want, "got": [complex(x).real for x in got][:8], "wavenumbers": [list(map(int, wn[:, i].ravel())) for i in [0]][:0]}
+    return {"ok": not bad, "bad": bad}
+
+
 def probe_roundtrip(D, N, seed):
     import jax.numpy as jnp
     sp = _sp()
@@ -233,6 +259,13 @@ def oracle(ctx, deep):
                     fails.append({"key": f"C04:single-mode:D{D}:parity{N % 2}", "what": f"a cos(k.x+phi) with k={k} on N={N}, D={D} does not appear in the named mode(s)",
                                   "probe": "single_mode", "args": {"D": D, "N": N, "k": list(k), "a": a, "phase": ph}, "observed": r})
                     break
+            for k in ks:
+                r = probe_coef_extraction(D, N, list(k), 1.7)
+                ctx.count(("oracle_coef", D, N, k))
+                if not r["ok"]:
+                    fails.append({"key": f"C04:coef-extraction:D{D}:parity{N % 2}", "what": f"scaling arrays do not read the documented amplitude of a*prod cos(k_d x_d), k={k}, N={N}, D={D}: {r['bad']}"[:500],
+                                  "probe": "coef_extraction", "args": {"D": D, "N": N, "k": list(k), "a": 1.7}, "observed": r})
+                    break
     for D in (1, 2, 3):
         r = probe_xy(D, 6)
         ctx.count(("oracle_xy", D))
@@ -248,4 +281,4 @@ def oracle(ctx, deep):
 
 
 def replay(probe, args):
-    return {"single_mode": probe_single_mode, "roundtrip": probe_roundtrip, "xy": probe_xy, "masks": probe_masks}[probe](**args)
+    return {"single_mode": probe_single_mode, "coef_extraction": probe_coef_extraction, "roundtrip": probe_roundtrip, "xy": probe_xy, "masks": probe_masks}[probe](**args)
